@@ -33,7 +33,7 @@ type op struct {
 	To    string `json:"to,omitempty"`    // account name, contract role, "X:<code>"/"Y:<code>" = address of A's next/previous creation of <code>
 	Tok   string `json:"tok,omitempty"`   // coin | gen (genesis token, no contract) | iss (token of the issuer contract)
 	Amt   string `json:"amt,omitempty"`   // amount class
-	Gas   string `json:"gas,omitempty"`   // "" exact/default | +1 | -1 | low
+	Gas   string `json:"gas,omitempty"`   // transfers: "" exact | +1 | -1; calls/creations: "" ample | low | ig | ig+1 | tf-1 | tf | tf+1 | tf+ig-1 | tf+ig | tf+ig+1
 	Code  string `json:"code,omitempty"`  // creation code name
 	Arg   string `json:"arg,omitempty"`   // issue amount / inflation of a lie
 	Dests []dest `json:"dests,omitempty"` // account -> confidential destinations
@@ -386,6 +386,58 @@ func gasAdjust(g uint64, how string) uint64 {
 	return g
 }
 
+// vmGasClasses: the gas-limit boundaries of a value-carrying contract call / creation. ig = intrinsic gas of the
+// payload, tf = the value-transfer fee payTransferGas charges (CalNewAmountGas(value, EverContractLiankeFee) for a coin
+// value > 0 that goes to a contract or a creation, else 0). Admission (IllegalGasLimitOrGasPrice) compares the limit with
+// ig and with the transfer fee SEPARATELY, execution needs their sum: limits in [max(ig, tf), ig+tf) are admitted, pay
+// the intrinsic gas and then fail in payTransferGas.
+var vmGasClasses = []string{"ig", "ig+1", "tf-1", "tf", "tf+1", "tf+ig-1", "tf+ig", "tf+ig+1"}
+
+// vmGas resolves a gas class of a call/creation.
+func vmGas(class string, data []byte, creation bool, tok common.Address, val *big.Int) (uint64, error) {
+	if class == "" {
+		return txkit.DefaultVMGas, nil
+	}
+	ig, err := types.IntrinsicGas(data, creation, 1)
+	if err != nil {
+		return 0, err
+	}
+	tf := uint64(0)
+	if tok == coinTok && val.Sign() > 0 {
+		tf = types.CalNewAmountGas(val, types.EverContractLiankeFee)
+	}
+	var g uint64
+	switch class {
+	case "low": // admitted and able to pay both fees, not enough to run: an out-of-gas failure inside the VM
+		g = ig + tf + 10
+	case "ig":
+		g = ig
+	case "ig+1":
+		g = ig + 1
+	case "tf-1":
+		if tf == 0 {
+			return 0, disabled("no transfer fee")
+		}
+		g = tf - 1
+	case "tf":
+		g = tf
+	case "tf+1":
+		g = tf + 1
+	case "tf+ig-1":
+		g = tf + ig - 1
+	case "tf+ig":
+		g = tf + ig
+	case "tf+ig+1":
+		g = tf + ig + 1
+	default:
+		return 0, fmt.Errorf("unknown gas class %q", class)
+	}
+	if g == 0 {
+		return 0, disabled("gas limit 0 means 'default' to the constructor")
+	}
+	return g, nil
+}
+
 func (x *bctx) buildTransfer(o op) (*txMeta, error) {
 	from := account(o.From)
 	to, err := x.addr(o.To)
@@ -451,7 +503,11 @@ func (x *bctx) buildCreate(o op) (*txMeta, error) {
 	n := x.peekNonce(from.Addr)
 	init := c.init()
 	at := txkit.ContractAddress(from.Addr, n, init)
-	tx := txkit.CreateWithGas(from, n, init, val, txkit.DefaultVMGas)
+	gas, err := vmGas(o.Gas, init, true, coinTok, val)
+	if err != nil {
+		return nil, err
+	}
+	tx := txkit.CreateWithGas(from, n, init, val, gas)
 	x.takeNonce(from.Addr)
 	code := o.Code
 	return &txMeta{Op: o, Tx: tx, Class: "free", Payer: from.Addr, Token: coinTok, Value: val,
@@ -526,10 +582,9 @@ func (x *bctx) buildCall(o op) (*txMeta, error) {
 		return nil, disabled("%v", err)
 	}
 	n := x.peekNonce(from.Addr)
-	gas := txkit.DefaultVMGas
-	if o.Gas == "low" { // enough to be admitted, not enough to run: an out-of-gas failure
-		ig, _ := types.IntrinsicGas(data, false, 1)
-		gas = ig + types.CalNewAmountGas(val, types.EverContractLiankeFee) + 10
+	gas, err := vmGas(o.Gas, data, false, tok, val)
+	if err != nil {
+		return nil, err
 	}
 	var tx types.Tx
 	if o.Kind == "call" {
